@@ -565,7 +565,7 @@ func main() {
 	m := hmac.New(sha256.New, []byte("k"))
 	m.Write([]byte("msg"))
 	s := md5.Sum([]byte("x"))
-	os.Stdout.WriteString(hex.EncodeToString(m.Sum(nil))[:8] + hex.EncodeToString(s[:])[:4] + "\n")
+	os.Stdout.WriteString(hex.EncodeToString(m.Sum(nil))[:8] + hex.EncodeToString(s[:])[:4] + "\\n")
 }
 """}, module="example.com/stdclosure")
     sbs = Sandbox(root / "sb-stdclosure", template=True)
